@@ -15,8 +15,10 @@ PROPS = {
                    'Sampling of an infinite input x configuration space: held-on-what-was-observed, not a proof.',
         level_note='trusts GMP arithmetic, the exact re-check of reference certificates, and the tolerance policy (alarm beyond 10x tolerance)',
         technique='runtime monitoring: exact-arithmetic certificate oracle over executions of the sanitizer-instrumented solver; pairwise-covering + random configurations',
-        stages=two_flavour('h_solve', 1500, 6000, 30000, 150000),
-        minima=lambda t: {'c01.optimal_checked': 500, 'c01.complete_checked': 300, 'distinct:cfg': 50},
+        stages=lambda t: two_flavour('h_solve', 1500, 6000, 30000, 150000)(t) + [
+            dict(name='netlib-asan', harness='h_solve', flavour='asan', sub='netlib', cases=87 if t == 'quick' else 870, idle_timeout=300),
+            dict(name='netlib-opt', harness='h_solve', flavour='opt', sub='netlib', cases=232 if t == 'quick' else 1740, idle_timeout=300)],
+        minima=lambda t: {'netlib.certificates_checked': 150, 'c01.optimal_checked': 500, 'c01.complete_checked': 300, 'distinct:cfg': 50},
         eval_counter='cases', distinct_set='nontrivial',
         rule='case k -> (LP family, seeded LP, configuration from the pairwise covering array or random); distinct = hash(LP structural '
              'signature x configuration key); non-trivial = the solve performed >= 1 simplex iteration or presolve removed the LP',
@@ -28,8 +30,10 @@ PROPS = {
                    'primal ray is checked exactly (orientation-free interval disjointness, recession-cone membership). Sampling, not proof.',
         level_note='trusts GMP arithmetic and the exact re-check of reference certificates; float noise floor 1e-9 relative on rays/Farkas',
         technique='runtime monitoring: exact Farkas/ray/verdict oracles over executions under ASan+UBSan; ensure-ray x simplifier cross',
-        stages=two_flavour('h_solve', 1500, 6000, 30000, 120000),
-        minima=lambda t: {'c02.farkas_checked': 100, 'c02.ray_checked': 50, 'c02.verdict_checked': 800},
+        stages=lambda t: two_flavour('h_solve', 1500, 6000, 30000, 120000)(t) + [
+            dict(name='netlib-asan', harness='h_solve', flavour='asan', sub='netlib', cases=60 if t == 'quick' else 600, idle_timeout=300),
+            dict(name='netlib-opt', harness='h_solve', flavour='opt', sub='netlib', cases=180 if t == 'quick' else 1500, idle_timeout=300)],
+        minima=lambda t: {'netlib.verdicts_checked': 100, 'netlib.farkas_checked': 30, 'c02.farkas_checked': 100, 'c02.ray_checked': 50, 'c02.verdict_checked': 800},
         eval_counter='cases', distinct_set='nontrivial',
         rule='case k -> (planted infeasible/unbounded/both/optimal or arbitrary LP, configuration, ensure-ray, simplifier); distinct = '
              'hash(LP signature x configuration key); non-trivial = solver returned a definite status',
